@@ -1,7 +1,8 @@
 """C02 — pipeline property decided by the Lean oracle on generated crystals (see checks/pipe.py)."""
 from checks import pipe
 
-PROPS = [("Moyo.Props.C02", "Moyo/Props/C02.lean"), ("Moyo.Props.C01Stages", "Moyo/Props/C01Stages.lean")]
+PROPS = [("Moyo.Props.C02", "Moyo/Props/C02.lean"), ("Moyo.Props.C01Stages", "Moyo/Props/C01Stages.lean"),
+         ("Moyo.Props.C02Stages", "Moyo/Props/C02Stages.lean")]
 
 
 def nontrivial(p, line):
@@ -11,7 +12,7 @@ def nontrivial(p, line):
 def run(tier, seed):
     return pipe.run_property("C02", tier, seed, ['hall', 'super', 'lowsym'], PROPS,
                              {"rule": 'every Hall setting (own + re-described) and supercells; non-trivial when a dataset was returned for a group of order >= 2 in a re-described or supercell input; completeness is judged against the group constructed from the regenerated Hall table conjugated by the recorded re-description'},
-                             nontrivial, stages=["s4"],
+                             nontrivial, stages=["s1", "s2", "s3", "s4"],
                              trusted=["premise validation of the generator (the generated crystal has exactly the generating group, symmetry gap >= 0.2 A) is a brute-force search in Rust, independent of moyo",
                                       "f64 rounding inside moyo is not modelled: the oracle judges the returned values in exact rational arithmetic",
                                       "the oracle's float code only orders candidate sites; every verdict is an exact test (Proofs/OracleSite.lean)"])
